@@ -61,13 +61,18 @@ func vc_MariadbGTIDSet_ContainsGTID_loop1_inv(rangeindex int, gtidSet MariadbGTI
 		vspec.Forall(0, rangeindex+1, func(k int) bool { return gtidSet[k].Domain != mdbOther.Domain })
 }
 
-func vc_MariadbGTIDSet_ContainsGTID_ensures_domain(gtidSet MariadbGTIDSet, other GTID, res bool, rangeindex int, mdbOther MariadbGTID) bool {
-	i := rangeindex
-	if i >= 0 && i < len(gtidSet) && gtidSet[i].Domain == mdbOther.Domain {
-		return res == (gtidSet[i].Sequence >= mdbOther.Sequence) &&
-			vspec.Forall(0, i, func(k int) bool { return gtidSet[k].Domain != mdbOther.Domain })
+func vc_MariadbGTIDSet_ContainsGTID_ensures_domain(gtidSet MariadbGTIDSet, other GTID, res bool, rangeindex int) bool {
+	g, ok := other.(MariadbGTID)
+	if !ok {
+		return true // (another dynamic type: decided on the first lines of the function)
 	}
-	return !res && vspec.Forall(0, len(gtidSet), func(k int) bool { return gtidSet[k].Domain != mdbOther.Domain })
+	// rangeindex is where the scan stopped; for a caller it is "some index" (existential)
+	i := rangeindex
+	if i >= 0 && i < len(gtidSet) && gtidSet[i].Domain == g.Domain {
+		return res == (gtidSet[i].Sequence >= g.Sequence) &&
+			vspec.Forall(0, i, func(k int) bool { return gtidSet[k].Domain != g.Domain })
+	}
+	return !res && vspec.Forall(0, len(gtidSet), func(k int) bool { return gtidSet[k].Domain != g.Domain })
 }
 
 // ---- AddGTID: the result holds the greater position for the GTID's domain, every other entry unchanged, and the
@@ -82,7 +87,11 @@ func vc_MariadbGTIDSet_AddGTID_loop1_inv(rangeindex int, gtidSet MariadbGTIDSet,
 		vspec.Forall(0, rangeindex+1, func(k int) bool { return gtidSet[k].Domain != mdbOther.Domain })
 }
 
-func vc_MariadbGTIDSet_AddGTID_ensures_result(gtidSet MariadbGTIDSet, other GTID, out GTIDSet, rangeindex int, mdbOther MariadbGTID) bool {
+func vc_MariadbGTIDSet_AddGTID_ensures_result(gtidSet MariadbGTIDSet, other GTID, out GTIDSet, rangeindex int) bool {
+	mdbOther, okg := other.(MariadbGTID)
+	if !okg {
+		return true // (another dynamic type: the receiver is returned on the first lines)
+	}
 	r, ok := out.(MariadbGTIDSet)
 	if !ok {
 		return false
@@ -131,14 +140,19 @@ func vc_Mysql56GTIDSet_ContainsGTID_loop1_inv(rangeindex int, set Mysql56GTIDSet
 }
 
 // membership as in the mathematical model: true exactly if some interval of that server id covers the number
-func vc_Mysql56GTIDSet_ContainsGTID_ensures_member(set Mysql56GTIDSet, gtid GTID, res bool, rangeindex int, gtid56 Mysql56GTID) bool {
-	ivs := set[gtid56.Server]
+func vc_Mysql56GTIDSet_ContainsGTID_ensures_member(set Mysql56GTIDSet, gtid GTID, res bool, rangeindex int) bool {
+	g, ok := gtid.(Mysql56GTID)
+	if !ok {
+		return true // (another dynamic type: decided on the first lines of the function)
+	}
+	ivs := set[g.Server]
 	if res {
+		// rangeindex is where the scan stopped; for a caller it is "some index" (existential)
 		i := rangeindex
-		return i >= 0 && i < len(ivs) && ivs[i].start <= gtid56.Sequence && gtid56.Sequence <= ivs[i].end
+		return i >= 0 && i < len(ivs) && ivs[i].start <= g.Sequence && g.Sequence <= ivs[i].end
 	}
 	return vspec.Forall(0, len(ivs), func(k int) bool {
-		return !(ivs[k].start <= gtid56.Sequence && gtid56.Sequence <= ivs[k].end)
+		return !(ivs[k].start <= g.Sequence && g.Sequence <= ivs[k].end)
 	})
 }
 
@@ -253,4 +267,70 @@ func vc_Mysql56GTIDSet_Contains_ensures_witness(set Mysql56GTIDSet, other GTIDSe
 	return rangeindex >= 0 && rangeindex < len(otherIntervals) && iv == otherIntervals[rangeindex] &&
 		vspec.SameSlice(otherIntervals, other56[sid]) && vspec.SameSlice(intervals, set[sid]) &&
 		specUncovered(intervals, iv)
+}
+
+// ---- MariadbGTIDSet.Contains / Equal (C19) ----
+
+// the set holds a position of g's domain that has reached g's sequence number
+func specMariaHas(s MariadbGTIDSet, g MariadbGTID) bool {
+	return vspec.Exists(0, len(s), func(k int) bool { return s[k].Domain == g.Domain && s[k].Sequence >= g.Sequence })
+}
+
+// no position of g's domain in the set has reached g's sequence number (for a set with one position per domain
+// this is the negation of specMariaHas)
+func specMariaLacks(s MariadbGTIDSet, g MariadbGTID) bool {
+	return vspec.Forall(0, len(s), func(k int) bool { return s[k].Domain != g.Domain || s[k].Sequence < g.Sequence })
+}
+
+func vc_MariadbGTIDSet_Contains_requires(gtidSet MariadbGTIDSet, other GTIDSet) bool {
+	_, ok := other.(MariadbGTIDSet)
+	return ok && specMariaWellFormed(gtidSet)
+}
+
+func vc_MariadbGTIDSet_Contains_loop1_inv(rangeindex int, gtidSet MariadbGTIDSet, mdbOther MariadbGTIDSet) bool {
+	return rangeindex >= -1 && rangeindex < len(mdbOther) &&
+		vspec.Forall(0, rangeindex+1, func(j int) bool { return specMariaHas(gtidSet, mdbOther[j]) })
+}
+
+// true: every position of other is reached in its domain
+func vc_MariadbGTIDSet_Contains_ensures_all(gtidSet MariadbGTIDSet, other GTIDSet, res bool) bool {
+	o, ok := other.(MariadbGTIDSet)
+	if !ok || !res {
+		return true
+	}
+	return vspec.Forall(0, len(o), func(j int) bool { return specMariaHas(gtidSet, o[j]) })
+}
+
+// false: a witness — a position of other that the set has not reached in that domain
+func vc_MariadbGTIDSet_Contains_ensures_witness(gtidSet MariadbGTIDSet, other GTIDSet, res bool, mdbOther MariadbGTIDSet, rangeindex int) bool {
+	if res {
+		return true
+	}
+	return rangeindex >= 0 && rangeindex < len(mdbOther) && specMariaLacks(gtidSet, mdbOther[rangeindex])
+}
+
+func vc_MariadbGTIDSet_Equal_requires(gtidSet MariadbGTIDSet, other GTIDSet) bool {
+	_, ok := other.(MariadbGTIDSet)
+	return ok
+}
+
+func vc_MariadbGTIDSet_Equal_loop1_inv(rangeindex int, gtidSet MariadbGTIDSet, mdbOther MariadbGTIDSet) bool {
+	return rangeindex >= -1 && rangeindex < len(gtidSet) && len(gtidSet) == len(mdbOther) &&
+		vspec.Forall(0, rangeindex+1, func(j int) bool { return gtidSet[j] == mdbOther[j] })
+}
+
+// Equal is position-wise equality of the two lists
+func vc_MariadbGTIDSet_Equal_ensures_same(gtidSet MariadbGTIDSet, other GTIDSet, res bool) bool {
+	o, ok := other.(MariadbGTIDSet)
+	if !ok || !res {
+		return true
+	}
+	return len(gtidSet) == len(o) && vspec.Forall(0, len(o), func(j int) bool { return gtidSet[j] == o[j] })
+}
+
+func vc_MariadbGTIDSet_Equal_ensures_differ(gtidSet MariadbGTIDSet, other GTIDSet, res bool, mdbOther MariadbGTIDSet, rangeindex int) bool {
+	if res {
+		return true
+	}
+	return len(gtidSet) != len(mdbOther) || (rangeindex >= 0 && rangeindex < len(gtidSet) && gtidSet[rangeindex] != mdbOther[rangeindex])
 }
